@@ -345,7 +345,13 @@ class FakeCbcProc:
 
     def wait(self):
         env = self.env
-        fault = env.next_fault()
+        if env.backend in ("cbc-wrapper", "none"):
+            fault = env.next_fault()
+        else:
+            # the step's fault plan belongs to another back-end; a CBC process started in such a step is one the
+            # code under test turned to on its own (second choice, or pulp's import-time default): it is healthy
+            fault = {"kind": "ok", "tie": env.secondary_fault.get("tie", 0)}
+            events.fired("cbc.consulted_as_second_choice")
         kind = fault.get("kind", "ok")
         info = env.begin_solve("cbc", kind)
         argv = self.argv
@@ -455,7 +461,11 @@ class FakeHighsProc:
 
     def wait(self):
         env = self.env
-        fault = env.next_fault()
+        if env.backend in ("highs-wrapper", "none"):
+            fault = env.next_fault()
+        else:
+            fault = {"kind": "ok", "tie": env.secondary_fault.get("tie", 0)}
+            events.fired("highs.consulted_as_second_choice")
         kind = fault.get("kind", "ok")
         info = env.begin_solve("highs", kind)
         argv = self.argv
